@@ -335,7 +335,7 @@ def statement : Nat → List Token → SR Stmt
                 (expectTok .RIGHT_PAREN "Expect ')' after for clauses." r6).bind fun _ r7 =>
                   .ok (cond, incr) r7).toSR.bind fun ci r7 =>
             (statement f r7).bind fun body r8 =>
-              .ok (.forS init (ci.1.getD (.literal (.bool true) 0)) ci.2 body) r8 []
+              .ok (.forS init ci.1 ci.2 body) r8 []
       | .PRINT => exprThenSemi f .print r
       | .RETURN =>
         (peekTok r fun s r1 =>
